@@ -84,6 +84,9 @@ func main() {
 		rep.Findings = append(rep.Findings, shrink(e, d, f))
 	}
 	rep.WallS = time.Since(start).Seconds()
+	if se, ok := e.(StatsEngine); ok {
+		rep.EngineStats = se.Stats()
+	}
 	if *out != "" {
 		writeJSON(*out, rep)
 	}
